@@ -137,7 +137,10 @@ def _propagate_glyph_anchors(glyphSet, composite, processed, modified, categorie
         glyph = glyphSet[component.baseGlyph]
         anchor_names |= {a.name for a in glyph.anchors}
 
-    for anchor_name in anchor_names:
+    # iterate in sorted order: when two names yield the same propagated key (e.g. numbered
+    # 'top_1' from two 'top' carriers and a base's own 'top_1') the winner must not
+    # depend on set iteration order, i.e. on the interpreter's string hash seed
+    for anchor_name in sorted(anchor_names):
         # don't add if composite glyph already contains this anchor OR any
         # associated ligature anchors (e.g. "top_1, top_2" for "top")
         if not any(a.name.startswith(anchor_name) for a in composite.anchors):
